@@ -77,18 +77,14 @@ pub async fn apoint(site: &'static str, detail: u128) {
     }
 }
 
-/// Takes `m` like `Mutex::lock`, except that while a simulation is active a caller that
-/// would block parks at the async sync point `site` and tries again once released.
-pub async fn lock_parking<'a, T>(
-    m: &'a std::sync::Mutex<T>,
-    site: &'static str,
-) -> std::sync::MutexGuard<'a, T> {
+/// While a simulation is active: returns once `m` could be locked without blocking; a
+/// caller that finds it taken parks at the async sync point `site` and looks again when
+/// released. (The caller takes the lock itself right afterwards; nothing else runs in
+/// between under the simulator.)
+pub async fn wait_unlocked<T>(m: &std::sync::Mutex<T>, site: &'static str) {
     loop {
-        if let Ok(guard) = m.try_lock() {
-            return guard;
-        }
-        if controller().is_none() {
-            return m.lock().unwrap();
+        if controller().is_none() || m.try_lock().is_ok() {
+            return;
         }
         apoint(site, 0).await;
         std::thread::yield_now();
